@@ -58,3 +58,29 @@ func VerifC20_Schemes() {
 	u, uerr := ToURL(m)
 	verif_Assert(uerr == nil && u.Path == "a/b" && u.Host == "1.2.3.4:80", "an http-path component becomes the URL path")
 }
+
+// C20 (legacy form): a multiaddr that carries the path in the old 'httpath'
+// component — written by legacy publishers with url.PathEscape — converts to
+// a URL with exactly the path that was advertised, for every path byte.
+func VerifC20_LegacyHTTPath() {
+	n := verif_Choose("pathLen", 0, 1+verif_Tier())
+	p := ""
+	if n > 0 {
+		p = verif_Str("path", n)
+	} else {
+		p = []string{"a+b", "a b/c d", "a%20b", "x/y+z?q=1"}[verif_Choose("concretePath", 0, 3)]
+	}
+	base, err := multiaddr.NewMultiaddr("/ip4/1.2.3.4/tcp/80/http")
+	verif_Assume(err == nil)
+	// (the package registers the legacy protocol when it is initialised; the engine
+	// initialises packages on first use of their variables)
+	comp, cerr := multiaddr.NewComponent(oldProtoHTTPath.Name, url.PathEscape(p))
+	verif_Assert(cerr == nil, "an escaped path is a valid legacy httpath component")
+	if cerr != nil {
+		return
+	}
+	u, uerr := ToURL(base.Encapsulate(comp))
+	verif_Reach("converted")
+	verif_Assert(uerr == nil && u.Scheme == "http" && u.Host == "1.2.3.4:80", "scheme and host are taken from the address")
+	verif_Assert(uerr != nil || u.Path == p, "the legacy httpath component is un-escaped to the path the publisher advertised")
+}
